@@ -156,6 +156,7 @@ Lemma judge_quiet_snap_sound : forall sn i,
   forall c, In c (sn_constrs sn) -> 0 <= slack_of (sn_model sn) c.
 Proof.
   intros sn i H. unfold judge_quiet_snap in H.
+  match type of H with (if ?c then _ else _) = _ => destruct c; [discriminate|] end.
   destruct (state_okb (sn_trail sn) (sn_model sn) (sn_reasons sn) (sn_assum sn) (sn_lvl sn)) eqn:Es;
     cbn [negb] in H; [|discriminate].
   split; [exact (state_okb_sound _ _ _ _ _ Es)|].
